@@ -114,3 +114,23 @@ Print Assumptions C16_g_cosh_0.
 Print Assumptions C16_g_cosh_S.
 Print Assumptions C16_g_arctanh_S.
 Print Assumptions C16_nth_derivative_of_chain.
+
+(* ---- erf and erfi (as repaired: the sum starts at k = n // 2).  erf is DEFINED as 2/sqrt(pi) * the integral of exp(-t^2) from 0 to x;
+   order n+1 is the derivative of order n for every n and every real x, x = 0 included (Hermite recurrence on the explicit
+   Pochhammer sums). *)
+From AlgoV Require Import NthDerivErf.
+Theorem C16_g_erf_0 x : g_erf 0 x = 2 / sqrt PI * RInt (fun t => exp (- (t * t))) 0 x.
+Proof. apply g_erf_0. Qed.
+Theorem C16_g_erf_S n x : is_derive (g_erf n) x (g_erf (S n) x).
+Proof. apply g_erf_S. Qed.
+Theorem C16_g_erfi_0 x : g_erfi 0 x = 2 / sqrt PI * RInt (fun t => exp (t * t)) 0 x.
+Proof. apply g_erfi_0. Qed.
+Theorem C16_g_erfi_S n x : is_derive (g_erfi n) x (g_erfi (S n) x).
+Proof. apply g_erfi_S. Qed.
+Theorem C16_g_erf_3 x : g_erf 3 x = 2 / sqrt PI * exp (- (x * x)) * (4 * x * x - 2).
+Proof. apply g_erf_3. Qed.
+Print Assumptions C16_g_erf_0.
+Print Assumptions C16_g_erf_S.
+Print Assumptions C16_g_erfi_0.
+Print Assumptions C16_g_erfi_S.
+Print Assumptions C16_g_erf_3.
